@@ -51,6 +51,8 @@ pub struct Answer {
     pub dir_propagate_err: bool,
     /// how much of a WRITE payload to drain
     pub drain: bool,
+    /// READ: serve the data through ZeroCopyWriter::write_from out of this memfd (fd number)
+    pub read_from_fd: Option<i32>,
 }
 
 pub fn zero_stat() -> stat64 {
@@ -82,6 +84,7 @@ impl Default for Answer {
             want: 0,
             dir_propagate_err: true,
             drain: true,
+            read_from_fd: None,
         }
     }
 }
@@ -340,6 +343,11 @@ impl FileSystem for ScriptFs {
             Some(e) => Err(e),
             None => {
                 let n = a.data.len().min(size as usize);
+                if let Some(fd) = a.read_from_fd {
+                    use std::os::unix::io::FromRawFd;
+                    let mut f = std::mem::ManuallyDrop::new(unsafe { std::fs::File::from_raw_fd(fd) });
+                    return w.write_from(&mut *f, size as usize, offset);
+                }
                 w.write_all(&a.data[..n])?;
                 Ok(n)
             }
